@@ -191,6 +191,43 @@ func c07Socks(port int) (listening []c07Sock, accepted int) {
 	return
 }
 
+// has this process accepted (accept(2) returned) the connection that the client made from local port `peer` to `port`?
+func c07Accepted(port, peer int) bool {
+	ents, _ := os.ReadDir("/proc/self/fd")
+	for _, e := range ents {
+		fd, err := strconv.Atoi(e.Name())
+		if err != nil {
+			continue
+		}
+		if v, err := syscall.GetsockoptInt(fd, syscall.SOL_SOCKET, syscall.SO_ACCEPTCONN); err != nil || v != 0 {
+			continue
+		}
+		sa, err := syscall.Getsockname(fd)
+		if err != nil {
+			continue
+		}
+		pa, err := syscall.Getpeername(fd)
+		if err != nil {
+			continue
+		}
+		lp, pp := 0, 0
+		if a, ok := sa.(*syscall.SockaddrInet4); ok {
+			lp = a.Port
+		} else if a, ok := sa.(*syscall.SockaddrInet6); ok {
+			lp = a.Port
+		}
+		if a, ok := pa.(*syscall.SockaddrInet4); ok {
+			pp = a.Port
+		} else if a, ok := pa.(*syscall.SockaddrInet6); ok {
+			pp = a.Port
+		}
+		if lp == port && pp == peer {
+			return true
+		}
+	}
+	return false
+}
+
 func c07ProbeOnce(port int, patience time.Duration) string {
 	tr := &http.Transport{DisableKeepAlives: true}
 	defer tr.CloseIdleConnections()
@@ -311,22 +348,35 @@ func c07Eval(f []string) (string, []string) {
 			}
 			tags["reload-"+res] = true
 		} else {
-			before, accBefore := c07Socks(p[1])
+			before, _ := c07Socks(p[1])
+			trace := os.Getenv("VERIF_TRACE") != ""
+			var tlog []string
+			t0 := time.Now()
+			note := func(f string, a ...interface{}) {
+				if trace {
+					tlog = append(tlog, fmt.Sprintf("%6dus ", time.Since(t0).Microseconds())+fmt.Sprintf(f, a...))
+				}
+			}
 			str := "-"
 			conn, err := net.DialTimeout("tcp", fmt.Sprintf("127.0.0.1:%d", p[1]), 2*time.Second)
 			if err == nil {
 				conn.Write([]byte("GET / HTTP/1.1\r\nHost: 127.0.0.1\r\nConnection: close\r\n"))
-				// the old instance must have accepted it before the reload starts
+				// the old instance must have accepted it before the reload starts: its server-side socket (local port p1,
+				// peer = our local port) shows up in the fd table.  (A request whose header is not complete 5 s after the
+				// connection was made is treated as idle by net/http's Shutdown: do not dawdle.)
+				peer := conn.LocalAddr().(*net.TCPAddr).Port
 				deadline := time.Now().Add(c07Patience)
 				for time.Now().Before(deadline) {
-					if _, acc := c07Socks(p[1]); acc > accBefore {
+					if c07Accepted(p[1], peer) {
+						note("accepted")
 						break
 					}
 					time.Sleep(200 * time.Microsecond)
 				}
 			}
 			done := make(chan error, 1)
-			go func() { _, err := insts[0].Restart(in); done <- err }()
+			note("restart starts")
+			go func() { _, err := insts[0].Restart(in); note("restart returned %v", err); done <- err }()
 			finished := false
 			var rerr error
 			deadline := time.Now().Add(c07Patience)
@@ -348,17 +398,26 @@ func c07Eval(f []string) (string, []string) {
 					}
 				}
 				if handed && conn != nil {
+					note("handed over: now=%v", now)
 					break
 				}
 				time.Sleep(200 * time.Microsecond)
 			}
 			mid := c07Probe(p[1])
+			note("mid=%s finished=%v", mid, finished)
 			if conn != nil {
 				conn.SetDeadline(time.Now().Add(c07Patience))
 				conn.Write([]byte("\r\n"))
 				resp, err := http.ReadResponse(bufio.NewReader(conn), nil)
 				if err != nil {
 					str = "e:reset"
+					if os.Getenv("VERIF_TRACE") != "" {
+						now, acc := c07Socks(p[1])
+						fmt.Fprintln(os.Stderr, "straddler:", err, "restart finished before completion:", finished, "listening now:", len(now), "accepted now:", acc, "before fds:", before)
+						for _, l := range tlog {
+							fmt.Fprintln(os.Stderr, "   ", l)
+						}
+					}
 				} else {
 					b, _ := io.ReadAll(io.LimitReader(resp.Body, 64))
 					resp.Body.Close()
